@@ -213,3 +213,49 @@ pub fn lex_plain(s: &str) -> Vec<Value> {
     }
     out
 }
+
+/// Projection of the lexed XML document to its records: for every element that states a component, a demand or a
+/// factor, the texts of its children - numbers as (integer in units of 10^-d, d), lists of numbers as lists.
+/// [el, {child: text | [P, d] | [[P...], d]}]
+pub fn xml_records(toks: &[Value]) -> Vec<Value> {
+    const RECS: [&str; 6] = ["Consumo", "Produccion", "EAux", "Salida", "Demanda", "Factor"];
+    let mut out = vec![];
+    let mut i = 0;
+    while i < toks.len() {
+        let t = &toks[i];
+        if t[0] == "O" && RECS.contains(&t[1].as_str().unwrap_or("")) {
+            let el = t[1].as_str().unwrap_or("").to_string();
+            let mut fields = serde_json::Map::new();
+            let mut j = i + 1;
+            let mut child: Option<String> = None;
+            while j < toks.len() && !(toks[j][0] == "C" && toks[j][1] == el.as_str()) {
+                let u = &toks[j];
+                if u[0] == "O" {
+                    child = u[1].as_str().map(|x| x.to_string());
+                } else if u[0] == "C" {
+                    child = None;
+                } else if u[0] == "T" {
+                    if let Some(c) = &child {
+                        let text = u[1].as_str().unwrap_or("");
+                        let v = if let Some((p, d)) = printed(text) {
+                            json!({"n": p, "d": d})
+                        } else {
+                            let parts: Vec<Option<(i64, usize)>> = text.split(',').map(printed).collect();
+                            if parts.len() > 1 && parts.iter().all(|x| x.is_some()) && parts.iter().all(|x| x.unwrap().1 == parts[0].unwrap().1) {
+                                json!({"l": parts.iter().map(|x| x.unwrap().0).collect::<Vec<i64>>(), "d": parts[0].unwrap().1})
+                            } else {
+                                json!({"s": text})
+                            }
+                        };
+                        fields.insert(c.clone(), v);
+                    }
+                }
+                j += 1;
+            }
+            out.push(json!({"el": el, "f": fields}));
+            i = j;
+        }
+        i += 1;
+    }
+    out
+}
